@@ -10,6 +10,7 @@
    (LChildSkip, as soon as its frame is cancelled in the model) or never dispatched (LDispatchFail at
    the return of Go).  Output: ACCEPT ret=<0|1> done=<nodes>   or   REJECT <event index> <event> <why>. *)
 exception Reject of string
+exception RejectAt of int * string * string
 
 let csv_ints s = if s = "-" then [] else List.map int_of_string (String.split_on_char ',' s)
 
@@ -125,7 +126,7 @@ let process id k ext succs roots events =
             | _ -> raise (Reject "return value of Go differs from the model"))
          | _ -> raise (Reject "unknown event"));
         sweep ()
-      with Reject why -> raise (Reject (Printf.sprintf "%d %s %s" idx (String.concat ":" (Array.to_list e)) (String.concat "_" (String.split_on_char ' ' why))))
+      with Reject why -> raise (RejectAt (idx, String.concat ":" (Array.to_list e), String.concat "_" (String.split_on_char ' ' why)))
     ) evs;
   if not (is_final !st) then raise (Reject "end trace-ended the-model-is-not-final");
   if !maxhold > k then raise (Reject "end holders more-than-K-holders");
@@ -145,8 +146,27 @@ let () =
         let succs, rest = take n rest [] in
         (match rest with
          | "R" :: roots :: "E" :: events ->
-           (try process id (int_of_string k) (ext = "1") succs (csv_ints roots) events
-            with Reject why -> Printf.printf "%s REJECT %s\n" id why)
+           (* The value returned by syncutil.Go (context.Cause) is read before the harness can log
+              `goret`.  When an ancestor context is cancelled in between, the log shows the cancellation
+              first and a nil result afterwards.  Such a `goret:<f>:0` is moved back, one event at a time,
+              to where it is consistent (its frame has no event of its own in between: all its tasks
+              have returned and the caller is blocked in Go).  If no such position exists (the event that
+              causes the cancellation was logged even before the last task of the frame returned, while
+              the cancellation itself took effect after Go had read the cause) the recorded order is
+              ambiguous and the case is left UNJUDGED by the model (the oracle still judges it). *)
+           let raced = ref false in
+           let evs = Array.of_list events in
+           let rec attempt tries =
+             try process id (int_of_string k) (ext = "1") succs (csv_ints roots) (Array.to_list evs)
+             with
+             | RejectAt (i, ev, why) when tries > 0 && i > 0 && why = "return_value_of_Go_differs_from_the_model"
+                                          && String.length ev > 6 && String.sub ev 0 6 = "goret:" && ev.[String.length ev - 1] = '0' ->
+               raced := true;
+               let x = evs.(i) in evs.(i) <- evs.(i - 1); evs.(i - 1) <- x; attempt (tries - 1)
+             | RejectAt (i, ev, why) when !raced -> Printf.printf "%s UNJUDGED goret-race %d %s %s\n" id i ev why
+             | RejectAt (i, ev, why) -> Printf.printf "%s REJECT %d %s %s\n" id i ev why
+             | Reject why -> Printf.printf "%s REJECT %s\n" id why in
+           attempt 400
          | _ -> Printf.printf "%s UNJUDGED\n" id)
       | id :: _ -> Printf.printf "%s UNJUDGED\n" id
       | [] -> ())
